@@ -644,9 +644,100 @@ pub fn observe(dump: &ord::index::verif::Dump, map: &TxMap) -> Line {
   l.done()
 }
 
+pub type Events = Vec<ord::index::event::Event>;
+
+/// open an index with an event receiver attached (Index::open_with_event_sender)
+pub fn open_index_ev(core: &mockcore::Handle, dir: &std::path::Path, flags: &[&str]) -> (ord::Index, tokio::sync::mpsc::Receiver<ord::index::event::Event>) {
+  use clap::Parser;
+  let mut args: Vec<String> = vec![
+    "ord".into(),
+    "--bitcoin-rpc-url".into(),
+    core.url(),
+    "--cookie-file".into(),
+    core.cookie_file().to_str().unwrap().into(),
+    "--data-dir".into(),
+    dir.to_str().unwrap().into(),
+  ];
+  if !flags.iter().any(|f| *f == "--testnet4") {
+    args.push("--regtest".into());
+  }
+  args.extend(flags.iter().map(|s| s.to_string()));
+  let options = ord::Options::try_parse_from(args).expect("options");
+  let settings = ord::settings::Settings::merge(options, Default::default()).expect("settings");
+  let (sender, receiver) = tokio::sync::mpsc::channel(1 << 20);
+  (ord::Index::open_with_event_sender(&settings, Some(sender)).expect("open index"), receiver)
+}
+
+fn drain(rx: &mut tokio::sync::mpsc::Receiver<ord::index::event::Event>, into: &mut Events) {
+  while let Ok(e) = rx.try_recv() {
+    into.push(e);
+  }
+}
+
+/// the inscription events, block by block, in the format of InscrEvents.emit_event
+pub fn observe_events(events: &Events, nblocks: usize, map: &TxMap, l: &mut L) {
+  use ord::index::event::Event;
+  let mut per: Vec<Vec<&Event>> = vec![Vec::new(); nblocks];
+  for e in events {
+    let h = match e {
+      Event::InscriptionCreated { block_height, .. } | Event::InscriptionTransferred { block_height, .. } => *block_height as usize,
+      _ => continue,
+    };
+    if h < nblocks {
+      per[h].push(e);
+    } else {
+      per[nblocks - 1].push(e);
+    }
+  }
+  l.push(nblocks);
+  for evs in per {
+    l.push(evs.len());
+    for e in evs {
+      match e {
+        Event::InscriptionCreated { block_height, charms, inscription_id, location, parent_inscription_ids, sequence_number } => {
+          l.push(0u8);
+          l.push(*block_height);
+          l.push(*charms & CHARM_MASK);
+          l.push(map.canon_of(&inscription_id.txid));
+          l.push(inscription_id.index);
+          match location {
+            None => l.push(0u8),
+            Some(sp) => {
+              l.push(1u8);
+              l.push(map.canon_of(&sp.outpoint.txid));
+              l.push(sp.outpoint.vout);
+              l.push(sp.offset);
+            }
+          }
+          l.push(parent_inscription_ids.len());
+          for p in parent_inscription_ids {
+            l.push(map.canon_of(&p.txid));
+            l.push(p.index);
+          }
+          l.push(*sequence_number);
+        }
+        Event::InscriptionTransferred { block_height, inscription_id, new_location, old_location, sequence_number } => {
+          l.push(1u8);
+          l.push(*block_height);
+          l.push(map.canon_of(&inscription_id.txid));
+          l.push(inscription_id.index);
+          for sp in [new_location, old_location] {
+            l.push(map.canon_of(&sp.outpoint.txid));
+            l.push(sp.outpoint.vout);
+            l.push(sp.offset);
+          }
+          l.push(*sequence_number);
+        }
+        _ => {}
+      }
+    }
+  }
+}
+
 pub struct Indexed {
   pub world: World,
   pub index: ord::Index,
+  pub events: Events,
   pub dump: ord::index::verif::Dump,
   /// dump after each height (only when asked for)
   pub history: Vec<ord::index::verif::Dump>,
@@ -659,28 +750,31 @@ pub fn build_and_index(case: &Case, stepwise: bool) -> Result<Indexed, String> {
   let dir = scratch_dir();
   let flags = chain_flags(case.chain, case.sats);
   let mut history = Vec::new();
+  let mut events = Events::new();
   if stepwise {
-    let index = ordkit::open_index(&world.core, dir.path(), &flags);
+    let (index, mut rx) = open_index_ev(&world.core, dir.path(), &flags);
     for it in &case.items {
       // item by item; empty runs in one go, but a dump per height is needed: replicate the last
       let before = world.height();
       world.add_item(it, false).map_err(|e| format!("[harness-realisation] {e}"))?;
       index.update().map_err(|e| format!("[update-error] {e:#}"))?;
+      drain(&mut rx, &mut events);
       let d = index.verif_dump().map_err(|e| format!("[dump-error] {e:#}"))?;
       for _ in before..world.height() {
         history.push(d.clone());
       }
     }
     let dump = index.verif_dump().map_err(|e| format!("[dump-error] {e:#}"))?;
-    Ok(Indexed { world, index, dump, history, _dir: dir })
+    Ok(Indexed { world, index, events, dump, history, _dir: dir })
   } else {
     for it in &case.items {
       world.add_item(it, false).map_err(|e| format!("[harness-realisation] {e}"))?;
     }
-    let index = ordkit::open_index(&world.core, dir.path(), &flags);
+    let (index, mut rx) = open_index_ev(&world.core, dir.path(), &flags);
     index.update().map_err(|e| format!("[update-error] {e:#}"))?;
+    drain(&mut rx, &mut events);
     let dump = index.verif_dump().map_err(|e| format!("[dump-error] {e:#}"))?;
-    Ok(Indexed { world, index, dump, history, _dir: dir })
+    Ok(Indexed { world, index, events, dump, history, _dir: dir })
   }
 }
 
@@ -690,7 +784,9 @@ fn run_case(prop: &str, line: &Line) -> Outcome {
   match build_and_index(&case, stepwise) {
     Err(m) => Outcome { obs: vec![Z { neg: true, mag: 3 }], oracle: Err(m), cat: format!("{prop}/harness-error") },
     Ok(ix) => {
-      let obs = observe(&ix.dump, &ix.world.map);
+      let mut obs = L(observe(&ix.dump, &ix.world.map));
+      observe_events(&ix.events, ix.world.height(), &ix.world.map, &mut obs);
+      let obs = obs.done();
       let (oracle, cat) = oracle::judge(prop, &case, &ix);
       Outcome { obs, oracle, cat: format!("{prop}/{cat}") }
     }
